@@ -171,6 +171,17 @@ def Stack.getitemTuple (s : Stack) (items : List Item) : Except Err Stack :=
       let t ← s.frameItem f
       pure { t with roi := r }
 
+/-! ### what the stack shows -/
+
+/-- `ImageStack.get_image()` for one colour channel: `np.stack([frame.data[...] for frame in self])`; frame `i` is page
+    `_start_idx + i·_step` (`_get_frame`), cut by `Roi.__call__`.  `raw p` is the stored image of page `p`. -/
+def Stack.image {α} (s : Stack) (raw : Int → List (List α)) : List (List (List α)) :=
+  s.frames.map fun p => s.roi.apply (raw p)
+
+/-- `ImageStack.shape` without the colour axis: `(num_frames, *self._src._shape)`, `Roi.shape = (y_max - y_min,
+    x_max - x_min)`. -/
+def Stack.shape (s : Stack) : Int × Int × Int := (s.numFrames, s.roi.height, s.roi.width)
+
 /-! ### pages: files, timestamps -/
 
 /-- `TiffStack.get_frame`: `cumulative_len = cumsum([0] + lens)`, `file = argmax(frame < cumulative_len) - 1`,
@@ -545,7 +556,7 @@ def showTether (t : Tether Float) : String :=
   | none => "none"
   | some (a, b) => showPt a ++ "," ++ showPt b
 
-/-- `ok <frames> <roi> <exposure ranges> <frame ranges> <start> <stop> <tether>` -/
+/-- `ok <frames> <roi> <exposure ranges> <frame ranges> <start> <stop> <tether> nf=<num_frames> shape=<n>x<rows>x<cols>` -/
 def showState (t : TStack) (pages : List Page) (legacy : Bool) : String :=
   let s := t.stk
   "ok " ++ showIntList s.frames ++ " " ++ showRoi s.roi ++ " "
@@ -554,6 +565,7 @@ def showState (t : TStack) (pages : List Page) (legacy : Bool) : String :=
     ++ (match s.start pages with | some v => toString v | none => "?") ++ " "
     ++ (match s.stop pages with | some v => toString v | none => "?") ++ " "
     ++ showTether t.teth
+    ++ " nf=" ++ toString s.shape.1 ++ " shape=" ++ toString s.shape.1 ++ "x" ++ toString s.shape.2.1 ++ "x" ++ toString s.shape.2.2
 
 def splitColon (s : String) : List String := s.splitOn ":"
 
@@ -654,6 +666,8 @@ def points? (s : String) : Option (List (Pt Float)) :=
       shows up in the final image: `<state> x,y;x,y|x,y;x,y|…`
   `c07.run <h> <w> [starts] [stops] [expStops] <legacy T/F> op…`   run a program on a fresh stack of
       `len starts` pages of `h × w` pixels, answer the final state (or the first error)
+  `c07.image <C> <h> <w> [starts] [stops] [expStops] <legacy> op…`   the program as for `c07.run` on pages of the
+      harness encoding; answers the pixel values of `get_image()` per stored sample: `image <frame/frame/…>|<sample 1>|…`
   `c07.kymo <C> <h> <w> [starts] [stops] [expStops] <legacy> op… k,<hw>`   the program as for `c07.run` (pages of the
       harness encoding `encPage`, `C` samples per pixel), then `to_kymo(half_window = hw)`:
       `kymo <line time ns> <exposure ns> <start> <image[x][t] of sample 0>|<sample 1>|…` or the error
@@ -683,6 +697,16 @@ def handle : List String → Option String
       let landed := (mats.zip pts).map fun (m, ps) => ps.map fun r => t.teth.land m r
       some (showState t pages legacy ++ " " ++ "|".intercalate (landed.map fun ps => ";".intercalate (ps.map showPt)))
     | .error e => some e.show
+  | "c07.image" :: nch :: h :: w :: starts :: stops :: exps :: legacy :: prog => do
+    let nch ← nat? nch; let h ← nat? h; let w ← nat? w
+    let pages ← pages? starts stops exps
+    let _ ← bool? legacy
+    let t0 : TStack := ⟨⟨0, pages.length, 1, ⟨0, w, 0, h⟩⟩, Tether.new 0.0 0.0 none⟩
+    match ← runProg pages t0 prog with
+    | .error e => some e.show
+    | .ok t =>
+      some ("image " ++ "|".intercalate ((List.range nch).map fun ch =>
+        "/".intercalate ((t.stk.image (encPage h w nch ch)).map (showListList showInt))))
   | "c07.kymo" :: nch :: h :: w :: starts :: stops :: exps :: legacy :: prog => do
     let nch ← nat? nch; let h ← nat? h; let w ← nat? w
     let pages ← pages? starts stops exps
